@@ -103,18 +103,26 @@ fn sign1(sp: &Spec) -> String {
             0 => { b = b.protected(palette_header(sp.get(&format!("hdr.s{}", i)).unwrap_or(0), salt)); if o.created.is_some() { o.dirty = true; } }
             1 => { b = b.unprotected(palette_header(sp.get(&format!("hdr.s{}", i)).unwrap_or(0), salt)); }
             4 => { b = b.payload(format!("payload{}", i).into_bytes()); has_payload = true; if o.created.is_some() { o.dirty = true; } }
-            2 | 3 | 5 => {
+            2 | 3 | 5 | 6 => {
                 let made = format!("made{}", i).into_bytes();
-                let fails = k == 3 && sp.get(&format!("creator-fails{}", i)) == Some(1);
+                let fails = (k == 3 || k == 6) && sp.get(&format!("creator-fails{}", i)) == Some(1);
                 let mut saw = vec![];
-                if k == 5 && has_payload {
-                    let r = std::panic::catch_unwind(std::panic::AssertUnwindSafe(|| { let _ = b.create_detached_signature(DET, AAD, |d| d.to_vec()); }));
-                    return if r.is_err() { "MATCH refused".into() } else { "MISMATCH create_detached_signature accepted an embedded payload".into() };
+                if (k == 5 || k == 6) && has_payload {
+                    let r = std::panic::catch_unwind(std::panic::AssertUnwindSafe(|| {
+                        if k == 5 { let _ = b.create_detached_signature(DET, AAD, |d| d.to_vec()); }
+                        else { let _ = b.try_create_detached_signature(DET, AAD, |d| -> Result<Vec<u8>, u64> { Ok(d.to_vec()) }); }
+                    }));
+                    return if r.is_err() { "MATCH refused".into() } else { "MISMATCH detached creation accepted an embedded payload".into() };
                 }
                 if k == 2 {
                     b = b.create_signature(AAD, |d| { saw = d.to_vec(); made.clone() });
                 } else if k == 5 {
                     b = b.create_detached_signature(DET, AAD, |d| { saw = d.to_vec(); made.clone() });
+                } else if k == 6 {
+                    match b.try_create_detached_signature(DET, AAD, |d| -> Result<Vec<u8>, u64> { saw = d.to_vec(); if fails { Err(77) } else { Ok(made.clone()) } }) {
+                        Ok(nb) => { if fails { return "MISMATCH failing creator gave a builder".into(); } b = nb; }
+                        Err(e) => { return if fails && e == 77 { "MATCH error-returned".into() } else { "MISMATCH wrong error".into() }; }
+                    }
                 } else {
                     match b.try_create_signature(AAD, |d| -> Result<Vec<u8>, u64> { saw = d.to_vec(); if fails { Err(77) } else { Ok(made.clone()) } }) {
                         Ok(nb) => { if fails { return "MISMATCH failing creator gave a builder".into(); } b = nb; }
@@ -122,7 +130,7 @@ fn sign1(sp: &Spec) -> String {
                     }
                 }
                 o.created = Some((saw, made));
-                o.detached = k == 5;
+                o.detached = k == 5 || k == 6;
                 o.dirty = false;
             }
             _ => {}
@@ -155,19 +163,27 @@ fn sign(sp: &Spec) -> String {
             0 => { b = b.protected(palette_header(sp.get(&format!("hdr.s{}", i)).unwrap_or(0), salt)); if o.created.is_some() { o.dirty = true; } }
             1 => { b = b.unprotected(palette_header(sp.get(&format!("hdr.s{}", i)).unwrap_or(0), salt)); }
             4 => { b = b.payload(format!("payload{}", i).into_bytes()); has_payload = true; if o.created.is_some() { o.dirty = true; } }
-            2 | 3 | 5 => {
+            2 | 3 | 5 | 6 => {
                 let sig = CoseSignatureBuilder::new().protected(palette_header(sp.get(&format!("hdr.sg{}", i)).unwrap_or(0), salt + 50)).build();
                 let made = format!("made{}", i).into_bytes();
-                let fails = k == 3 && sp.get(&format!("creator-fails{}", i)) == Some(1);
+                let fails = (k == 3 || k == 6) && sp.get(&format!("creator-fails{}", i)) == Some(1);
                 let mut saw = vec![];
-                if k == 5 && has_payload {
-                    let r = std::panic::catch_unwind(std::panic::AssertUnwindSafe(|| { let _ = b.add_detached_signature(sig.clone(), DET, AAD, |d| d.to_vec()); }));
-                    return if r.is_err() { "MATCH refused".into() } else { "MISMATCH add_detached_signature accepted an embedded payload".into() };
+                if (k == 5 || k == 6) && has_payload {
+                    let r = std::panic::catch_unwind(std::panic::AssertUnwindSafe(|| {
+                        if k == 5 { let _ = b.add_detached_signature(sig.clone(), DET, AAD, |d| d.to_vec()); }
+                        else { let _ = b.try_add_detached_signature(sig.clone(), DET, AAD, |d| -> Result<Vec<u8>, u64> { Ok(d.to_vec()) }); }
+                    }));
+                    return if r.is_err() { "MATCH refused".into() } else { "MISMATCH detached creation accepted an embedded payload".into() };
                 }
                 if k == 2 {
                     b = b.add_created_signature(sig, AAD, |d| { saw = d.to_vec(); made.clone() });
                 } else if k == 5 {
                     b = b.add_detached_signature(sig, DET, AAD, |d| { saw = d.to_vec(); made.clone() });
+                } else if k == 6 {
+                    match b.try_add_detached_signature(sig, DET, AAD, |d| -> Result<Vec<u8>, u64> { saw = d.to_vec(); if fails { Err(77) } else { Ok(made.clone()) } }) {
+                        Ok(nb) => { if fails { return "MISMATCH failing creator gave a builder".into(); } b = nb; }
+                        Err(e) => { return if fails && e == 77 { "MATCH error-returned".into() } else { "MISMATCH wrong error".into() }; }
+                    }
                 } else {
                     match b.try_add_created_signature(sig, AAD, |d| -> Result<Vec<u8>, u64> { saw = d.to_vec(); if fails { Err(77) } else { Ok(made.clone()) } }) {
                         Ok(nb) => { if fails { return "MISMATCH failing creator gave a builder".into(); } b = nb; }
@@ -177,7 +193,7 @@ fn sign(sp: &Spec) -> String {
                 o.created = Some((saw, made));
                 o.signer = n;
                 n += 1;
-                o.detached = k == 5;
+                o.detached = k == 5 || k == 6;
                 o.dirty = false;
             }
             _ => {}
